@@ -20,7 +20,7 @@ func main() {
 	harness := flag.String("harness", "", "comma separated <pkgpath>.<Func> entry points")
 	initPkgs := flag.String("init", "", "comma separated package paths whose init is executed")
 	out := flag.String("out", "", "result JSON file")
-	solverCmd := flag.String("solver", "z3 -in", "solver command line")
+	solverCmd := flag.String("solver", "chain", "solver command line, or \"chain\" = z3 4.8.12 -> z3 5.1.0 -> cvc5")
 	qTimeout := flag.Int("qtimeout", 20000, "per query timeout (ms)")
 	maxPaths := flag.Int("maxpaths", 20000, "path budget per harness")
 	maxDec := flag.Int("maxdecisions", 400, "symbolic decisions per path")
@@ -33,6 +33,7 @@ func main() {
 	tags := flag.String("tags", "verif", "build tags")
 	thorough := flag.Bool("thorough", false, "thorough tier (zzverif.Thorough() is true)")
 	samples := flag.Int("samples", 0, "number of validation samples (models of completed paths)")
+	part := flag.String("part", "", "explore partition i/n of the path space (n a power of two)")
 	seed := flag.Int64("seed", 0, "seed (only affects which paths are sampled)")
 	flag.Parse()
 
@@ -88,6 +89,9 @@ func main() {
 		}
 		c := Config{MaxDecisions: *maxDec, MaxDepth: *maxDepth, MaxSteps: *maxSteps, MaxPaths: *maxPaths, MapPerm: *mapPerm,
 			MaxWitness: 3, Verbose: *verbose, TimeBudget: *budget, Thorough: *thorough, Samples: *samples, Seed: *seed}
+		if *part != "" {
+			fmt.Sscanf(*part, "%d/%d", &c.PartI, &c.PartN)
+		}
 		if *initPkgs != "" {
 			c.InitPkgs = strings.Split(*initPkgs, ",")
 		}
